@@ -54,6 +54,16 @@ void fpBFH(const json &in, json &out) {
           const Spline<F, oa> a = mkSpline<F, oa>(ja, g);
           const Spline<F, ob> b = mkSpline<F, ob>(jb, g);
           const bspline::integration::BilinearForm f{E1::template make<F>(fs), E2::template make<F>(fs)};
+          // sameobj: the very same object on both sides (a diagonal element bf(s, s))
+          bool same = false;
+          if constexpr (oa == ob) {
+            if (in.value("sameobj", 0) != 0) {
+              same = true;
+              acc.cmp(f(a, a), ratQ(in.at("E")), ratQ(in.at("S")), "bf(s,s)");
+              acc.cmp(f.evaluate(a, a), ratQ(in.at("E")), ratQ(in.at("S")), "evaluate(s,s)");
+            }
+          }
+          if (same) return;
           acc.cmp(f(a, b), ratQ(in.at("E")), ratQ(in.at("S")), "bf");
           if constexpr (E1::exactable && E2::exactable) try {  // second pass, full-mantissa coefficients
             const Grid<Rat> gr = mkGrid<Rat>(ja.at("g"));
